@@ -200,7 +200,7 @@ Proof.
   (* free features *)
   assert (Hok0 : tables_ok nonzero false (bs_ls b)).
   { split; [exact (rp_core _ _ _ _ _ HR)|]. intros f o Hfo. rewrite (rp_tri _ _ _ _ _ HR) in Hfo. discriminate. }
-  destruct (add_free_spec rc _ _ _ _ _ Hok0 H0 (seq_ge1 _) Efree) as [Hok1 Hfree].
+  destruct (add_free_spec rc _ _ _ _ _ Hok0 H0 (seq_ge1 _) Efree) as [Hok1 [Hfree _]].
   pose proof (free_result_val _ _ _ a bv Hfree Hv0) as Hv1.
   (* true / false elimination *)
   destruct (pass2_shrink _ _ _ (co_inv _ _ _ (proj1 Hok1)) E2) as [HI2 Hs2].
